@@ -21,24 +21,38 @@ import vf
 import c16_objmodel as om
 
 INST = os.path.join(HERE, "c18_inst.C")
-LIB_DIRS = ["src/kernel/gmp++", "src/kernel/integer", "src/kernel/rational", "src/kernel/memory", "src/kernel/system", "src/kernel/bstruct"]
+LIB_DIRS = ["src/kernel/gmp++", "src/kernel/integer", "src/kernel/rational", "src/kernel/memory", "src/kernel/system", "src/kernel/bstruct",
+            "src/library/poly1", "src/library/tools"]          # (givindeter.C, givdegree.C, givops.C: Indeter / Degree members used by Poly1Dom)
 SKIP_C = {"gmp++_int.C"}              # only #includes the other gmp++_int_*.C files
-VERSION = "c18-values-v14"
+VERSION = "c18-values-v19"
 
 # ---- what a write to a static may be.  Anything that is not matched here is reported (site = the function, klass = the statics).
 # (regular expression on "Class::function", set of statics or None = any, category, reason)
+RND = {"randstate", "rand_gen", "_seed", "_g", "libc:rand", "libc:srand", "libc:random", "libc:srandom", "gmp_randseed", "libc:gmp_randseed", "libc:gmp_randseed_ui"}
 DOCUMENTED_WRITERS = [
+    # ---- setters of documented process-wide parameters (must not be called while other threads compute)
     (r"^Rational::Set(No)?Reduce$", {"flags"}, "setter", "documented user-level switch of the reduction mode (Rational::flags)"),
     (r"^rmint::init_module$", {"p", "p1", "r"}, "setter", "documented module setter of rmint<K,MG> (the modulus is a class static)"),
     (r"^StaticElement::setDomain$", {"_domain"}, "setter", "documented: the domain of StaticElement<D> is a class static set by setDomain"),
-    (r"^(Givaro_RecInt::)?srand$", {"rand_gen", "libc:srand"}, "random", "seeds RecInt's generator (random state: excluded by the property text)"),
-    (r"^(ruint|rint|rmint|Givaro_RecInt)?(::)?(rand|random)$", {"rand_gen"}, "random", "advances RecInt's generator (random state: excluded by the property text)"),
-    (r"^Integer::(seeding|random\w*|nonzerorandom\w*|random_\w+|nonzerorandom_\w+)$", {"randstate"}, "random", "GMP random state behind Integer::random (excluded by the property text)"),
-    (r"^GivRandom::", {"_seed"}, "random", "GivRandom advances its own seed from const members: a generator object is random state, not a domain"),
-    (r"^Poly1FactorDom::", {"_g", "randstate", "_seed"}, "random", "randomised algorithms of the factorisation domain advance its generator member _g (outside the claim)"),
-    (r"^Integer::randomInit$|^Integer::random_generator$", {"randstate"}, "random", "GMP random state behind Integer::random (excluded by the property text)"),
-    (r"^(GivMMFreeList|GivMMRefCount|GivMemory|BlocFreeList|GivMMInfo|GivaroMM|GivMM\w*)::", None, "allocator", "GivMM free lists (process-wide allocator state: excluded by the property text)"),
-    (r"^(GivaroMain|GivaroAppli|GivModule|InitAfter|ObjectInit)::|^\w+::(Init|End)$", None, "startup", "library start-up / shut-down (GivaroMain::Init/End, module table): single-threaded by contract"),
+    # ---- the random ENTRY POINTS the property excludes ("random state"): by NAME.  Nothing else may touch a generator's state: an
+    #      arithmetic / init / convert / comparison operation that does is an offender
+    (r"^(Givaro_RecInt::)?(srand|rand)$|^(ruint|rint|rmint)::(rand|random)$", RND, "random-entry-point", "RecInt rand / srand / random (random state: excluded by the property text)"),
+    (r"^Integer::(seeding|random\w*|nonzerorandom\w*|RandBool|randstate|randomInit|random_generator)$", RND, "random-entry-point", "Integer::random* / seeding (GMP random state: excluded by the property text)"),
+    (r"^GivRandom::", RND, "random-entry-point", "GivRandom: a generator object advances its own seed (random state, not a domain)"),
+    (r"RandIter(<[^:]*)?::", RND, "random-entry-point", "random iterators (ModularRandIter, GeneralRingRandIter, ...): generator objects"),
+    (r"::(random|nonzerorandom|seeding|random_\w+|nonzerorandom_\w+)$", RND, "random-entry-point", "the members random / nonzerorandom / seeding of a domain (randomised by name)"),
+    # ---- randomised ALGORITHMS (domains parameterised by a RandIter; Pollard / Lenstra / Cantor-Zassenhaus / random irreducible):
+    #      documented as randomised by their class; listed in full in the evidence
+    (r"^(IntFactorDom|IntNumTheoDom|IntRSADom)::", RND, "randomised-algorithm", "integer factorisation / number-theory domain <RandIter>: Pollard rho, Lenstra, primitive roots via factorisation"),
+    (r"^Poly1FactorDom::", RND, "randomised-algorithm", "polynomial factorisation domain <.., RandIter>: Cantor-Zassenhaus, random irreducible / primitive polynomials (generator member _g)"),
+    # ---- construction of a field draws a random irreducible polynomial / generator (C16: NON_ISO classes); a constructor is not a
+    #      const operation of a shared object
+    (r"^(GFqDom|GFqExtFast|GFqExt|Modular)::(read|builddoubletables)$", RND, "randomised-construction", "non-const members that REBUILD the field (read(istream&) = construct from the stream, builddoubletables = constructor helper)"),
+    (r"^(GFqDom|GFqExtFast|GFqExt|Extension|Modular)::(GFqDom|GFqExtFast|GFqExt|Extension|Modular)$", RND, "randomised-construction", "constructors of table / extension fields: random irreducible polynomial, primitive root found through factorisation; Modular<Log16>(p) picks a generator with rand()"),
+    # ---- allocator and start-up
+    (r"^(GivMMFreeList|GivMMRefCount|GivMemory|BlocFreeList|GivMMInfo|GivaroMM)::", None, "allocator", "GivMM free lists (process-wide allocator state: excluded by the property text)"),
+    (r"^(GivaroMain|GivaroAppli|GivModule|InitAfter|ObjectInit)::", None, "startup", "library start-up / shut-down (GivaroMain::Init/End, module table): single-threaded by contract"),
+    (r"^(Integer|Rational|Bits|GivMMFreeList|GivMMRefCount|GivaroMM|IntPrimeDom|Degree|Indeter|GivModule)::(Init|End)$", None, "startup", "module Init/End functions registered with GivModule (called by GivaroMain::Init/End only)"),
 ]
 # statics that are not state of the values: I/O streams, locale
 IGNORED = set(om.IGNORED_GLOBALS)
@@ -125,6 +139,28 @@ def dump_ast(cdir, with_domains=True, explicit=True):
 UNSAFE_EXTERNALS = {"rand", "srand", "random", "srandom", "drand48", "lrand48", "mrand48", "srand48", "strtok", "localtime", "gmtime", "asctime",
                     "ctime", "setlocale", "strerror", "tmpnam", "mp_set_memory_functions", "__gmp_set_memory_functions", "setenv", "putenv",
                     "gmp_randseed", "gmp_randseed_ui"}
+
+
+# ---- callees WITHOUT a body in the unit.  (a) declared in the dump (namespace Givaro / RecInt = the repository) and not listed here:
+# a hole in the translator's view of the repository -> broken obligation with the list.  (b) not in the dump (libstdc++, GMP, libc):
+# explicit effect table: effect-free on process-wide state (their writes go to their operands), unsafe (UNSAFE_EXTERNALS: a write
+# to hidden state), or unknown (listed in full in the evidence)
+REPO_NOBODY_OK = {
+    ("GivaroAppli::run", "main"): "pure virtual: the user's main",
+    ("GivModule::InitApp", "f_init"): "call through the module table: the registered X::Init functions, each decided on its own (start-up)",
+    ("GivModule::EndApp", "f_end"): "call through the module table: the registered X::End functions (shut-down)",
+    ("GivaroMM::destroy", "bloc"): "pseudo-destructor call on the elements of the block being released (operand)",
+}
+EXTERNAL_EFFECT_FREE = re.compile(
+    r"^(__gmp[zqnf]_\w+|__gmp_\w*printf|__builtin_\w+|operator.*|size|begin|end|rbegin|rend|cbegin|cend|resize|reserve|push_back|pop_back|emplace_back|insert|erase|clear|"
+    r"empty|front|back|data|capacity|assign|swap|at|find|count|c_str|str|length|substr|append|compare|to_string|get_mpz_t|get_str|get_ui|get_si|get_d|set_str|"
+    r"fmod|fmodf|fabs|floor|ceil|abs|labs|llabs|sqrt|pow|log|log2|exp|ldexp|frexp|modf|round|trunc|fma|isnan|isinf|min|max|move|forward|make_pair|"
+    r"memcpy|memmove|memset|memcmp|strlen|strcmp|strncmp|strcpy|strtol|strtoul|strtod|atoi|atol|isdigit|isspace|isalpha|toupper|tolower|"
+    r"malloc|free|calloc|realloc|flags|width|precision|fill|setf|unsetf|good|eof|fail|bad|peek|get|putback|ignore|put|write|read|flush|getline|tellg|seekg|rdbuf|"
+    r"get_z_range|get_z_bits|ilogb|timespec_get|reverse|reverse_copy|copy|fill_n|sort|accumulate|distance|advance|getrusage|gettimeofday|clock|time|seed|name|what|load|store|fetch_add|fetch_sub|exchange|"
+    r"compare_exchange_weak|compare_exchange_strong|lock|unlock|first|second|top|push|pop|numeric_limits|digits|epsilon|exit|abort|__assert_fail|printf|fprintf|sprintf|snprintf|"
+    r"~\w+|allocate|deallocate|construct|destroy|max_size|get_allocator|endl|ws|hex|dec|oct|setw|setprecision|setfill|sgn|fits_\w+|swap_ranges|equal|lexicographical_compare|"
+    r"uninitialized_\w+|__throw_\w+|isleq|iterator|const_iterator|base|operator_new|operator_delete)$")
 
 
 class VFnInfo(om.FnInfo):
@@ -226,7 +262,8 @@ def atomic_accesses(fnnode, fi):
             obj = om.kids(ks[0])[0] if om.kids(ks[0]) else None
             nm = ks[0].get("name") or ""
             if obj_is_atomic(obj):
-                kind = "rmw" if nm in ATOMIC_RMW else "store" if nm in ("store", "operator=") else "load" if (nm == "load" or nm.startswith("operator ")) else None
+                weak = nm in ("fetch_sub",) and re.search(r"memory_order_(relaxed|consume|acquire|release)\b", json.dumps(ks[1:]))
+                kind = "decweak" if weak else "rmw" if nm in ATOMIC_RMW else "store" if nm in ("store", "operator=") else "load" if (nm == "load" or nm.startswith("operator ")) else None
                 if kind:
                     out.append((kind, cname(obj)))
         elif k == "CXXOperatorCallExpr" and len(ks) >= 2:
@@ -393,6 +430,31 @@ def build(log=None):
             # a constructor other than the copy constructor works on an object nobody shares yet
             fresh = b.get("kind") == "CXXConstructorDecl" and not om.is_copy_param(idx, b, (idx.cls_of.get(b["id"]) or {}).get("name") or "")
             ops[-1]["atomic"] = {"accesses": [list(a) for a in acc], "fresh_object": bool(fresh)}
+    # callees without a body
+    repo_nobody, ext_free, ext_unknown, ext_unsafe, n_calls = [], {}, {}, {}, 0
+    for bid in list(seen):
+        b = idx.decl.get(bid) if bid in idx.decl else None
+        b = idx.body(bid) if b is not None else None
+        if b is None or b["id"] in pat_fn:
+            continue
+        caller = base_name((owner_chain(idx, b, nsmap) + "::" if owner_chain(idx, b, nsmap) else "") + (b.get("name") or "?"))
+        if caller.startswith("GivaroC18") or "::GivaroC18" in caller or caller.startswith("::c16_") or caller.startswith("c16_"):
+            continue
+        for cid, recv, cname, _ in an.info(b).calls:
+            n_calls += 1
+            if cname == "<constructor>" or (cid is not None and idx.body(cid) is not None):
+                continue
+            d = idx.decl.get(cid) if cid is not None else None
+            nm = str(cname)
+            if d is not None:
+                if (caller, d.get("name")) not in REPO_NOBODY_OK:
+                    repo_nobody.append("%s -> %s %s %s" % (caller, d.get("kind"), d.get("name"), om.qt(d)[:80]))
+            elif nm in UNSAFE_EXTERNALS:
+                ext_unsafe[nm] = ext_unsafe.get(nm, 0) + 1
+            elif EXTERNAL_EFFECT_FREE.match(nm):
+                ext_free[nm] = ext_free.get(nm, 0) + 1
+            else:
+                ext_unknown[nm] = ext_unknown.get(nm, 0) + 1
     # unique, stable names
     ops.sort(key=lambda o: o["site"])
     cnt = {}
@@ -415,7 +477,9 @@ def build(log=None):
     meta = {"cached": False, "key": key, "domain_classes_included": domains, "explicit_instantiations": explicit_lines(domains) if explicit else [], "note": (None if (domains and explicit) else "harness/c16_inst.C could not be compiled in the same unit: " + lg[-300:]), "clang_seconds": round(t1 - t0, 2), "seconds": round(time.time() - t0, 2), "ast_objects": len(objs),
             "decls_indexed": len(idx.decl), "functions_with_body": len(ops), "template_patterns_skipped": npat, "families_in_dump": sorted(b.get("name") for b in fams.values()),
             "reachable_from_families": len(reach), "library_sources": [os.path.relpath(p, vf.REPO) for p in lib_sources()],
-            "calls_resolved": an.stats["calls_resolved"], "calls_unresolved": an.stats["calls_unresolved"]}
+            "calls_resolved": an.stats["calls_resolved"], "calls_unresolved": an.stats["calls_unresolved"],
+            "calls_seen": n_calls, "repo_callees_without_body": sorted(set(repo_nobody)), "external_callees_effect_free_by_table": ext_free,
+            "external_callees_unsafe": ext_unsafe, "external_callees_not_in_table": ext_unknown}
     res = {"ops": ops, "meta": meta}
     tmp = cp + ".tmp%d" % os.getpid()
     json.dump(res, open(tmp, "w"))
@@ -445,11 +509,7 @@ def decide(res):
             continue
         d = documented(o["fn"], w)
         if d is None:
-            # an operation that only advances random state is a randomised operation: outside the claim, listed
-            if not writes_of(o):
-                doc.append((o, "random", "advances a random generator (random state: excluded by the property text)"))
-            else:
-                off.append(o)
+            off.append(o)            # (also an operation that "only" advances random state: only the NAMED entry points may)
         else:
             doc.append((o, d[0], d[1]))
     return off, doc
@@ -460,8 +520,10 @@ def atomic_sites(res):
 
 
 def atomic_offenders(res):
-    """functions that update a shared atomic counter with a store (load + store, `x = x + 1`, or a blind store) instead of one RMW"""
-    return [o for o in atomic_sites(res) if not o["atomic"]["fresh_object"] and any(a[0] == "store" for a in o["atomic"]["accesses"])]
+    """functions that touch a shared atomic counter by anything but a single strong RMW: a store (load + store, `x = x + 1`, blind store:
+    lost update), a separate load (the zero test must use the value RETURNED by the decrement: decrement + load = double free), a weakly
+    ordered decrement"""
+    return [o for o in atomic_sites(res) if not o["atomic"]["fresh_object"] and any(a[0] != "rmw" for a in o["atomic"]["accesses"])]
 
 
 def emit_coq(res):
@@ -473,7 +535,8 @@ def emit_coq(res):
              "   current headers of the repository.  Do not edit: rewritten by every run of checks/C18.py.",
              "   One entry per function body in the dump (Integer, Rational, RecInt, integer domains, allocator, start-up, every instantiated ring /",
              "   field / polynomial domain): the statics it touches and, for const members, the own members written through mutable / casts / pointers. *)",
-             "From Coq Require Import String List.", "From C16 Require Import ObjModel RaceFreeValues RaceFreeAtomic.", "Import ListNotations.", "Local Open Scope string_scope.", "",
+             "From Coq Require Import String List Bool.", "From C16 Require Import ObjModel RaceFreeValues RaceFreeAtomic.", "From C16.gen Require Import Desc.",
+             "Import ListNotations.", "Local Open Scope string_scope.", "",
              "Definition value_ops : list vop := ["]
     ents = []
     for o in res["ops"]:
@@ -495,24 +558,33 @@ def emit_coq(res):
     lines.append("Lemma decide_values_offenders : Decide_values_offenders_stmt.")
     lines.append("Proof. vm_compute. reflexivity. Qed.")
     lines.append("")
-    lines.append("(* hence every operation of the current source that is not a documented writer satisfies the hypothesis of values_concurrent *)")
+    offl = om.coq_list([om.coq_str(o["uid"]) for o in off])
+    lines.append("(* hence every operation of the current source that is neither a documented writer nor in the decided list of offenders (empty, or the")
+    lines.append("   known findings of the unchanged tree, named here) satisfies the hypothesis of values_concurrent *)")
     lines.append("Definition SourceOperationsAccepted_stmt : Prop :=")
-    lines.append("  forall n o, find_vop value_ops n = Some o -> vo_documented o = false -> accepted value_ops n = true.")
+    lines.append("  forall n o, find_vop value_ops n = Some o -> vo_documented o = false -> ~ In (vo_name o) %s -> accepted value_ops n = true." % offl)
     lines.append("Lemma source_operations_accepted : SourceOperationsAccepted_stmt.")
-    lines.append("Proof. exact (fun n o => offenders_nil_accepted value_ops n o decide_values_offenders). Qed.")
+    lines.append("Proof. exact (fun n o => offenders_list_accepted value_ops _ n o decide_values_offenders). Qed.")
     lines.append("")
     lines.append("(* every function that touches a std::atomic (the shared reference counts): the operations, in evaluation order.  The premise of")
     lines.append("   atomic_counter -- each update is ONE atomic read-modify-write -- read from the source: no update is a store *)")
-    ak = {"rmw": "ARmw", "load": "ALoad", "store": "AStore"}
+    ak = {"rmw": "ARmw", "load": "ALoad", "store": "AStore", "decweak": "ADecWeak"}
     lines.append("Definition atomic_sites : list asite := " + om.coq_list(
         ["{| as_name := %s; as_fresh := %s; as_accesses := %s |}" % (om.coq_str(o["uid"]), "true" if o["atomic"]["fresh_object"] else "false",
                                                                        om.coq_list([ak[a[0]] for a in o["atomic"]["accesses"]])) for o in atomic_sites(res)]).replace("; {|", ";\n   {|") + ".")
     lines.append("Definition Decide_atomic_stmt : Prop := atomic_split_updates atomic_sites = %s." % om.coq_list([om.coq_str(o["uid"]) for o in atomic_offenders(res)]))
     lines.append("Lemma decide_atomic : Decide_atomic_stmt.")
     lines.append("Proof. vm_compute. reflexivity. Qed.")
-    lines.append("Definition SourceAtomicUpdatesSingleRmw_stmt : Prop := forall s, In s atomic_sites -> as_fresh s = false -> ~ In AStore (as_accesses s).")
+    aoffl = om.coq_list([om.coq_str(o["uid"]) for o in atomic_offenders(res)])
+    lines.append("Definition SourceAtomicUpdatesSingleRmw_stmt : Prop :=")
+    lines.append("  forall s, In s atomic_sites -> as_fresh s = false -> ~ In (as_name s) %s -> forall a, In a (as_accesses s) -> a = ARmw." % aoffl)
     lines.append("Lemma source_atomic_updates_single_rmw : SourceAtomicUpdatesSingleRmw_stmt.")
-    lines.append("Proof. exact (no_split_updates_no_store atomic_sites decide_atomic). Qed.")
+    lines.append("Proof. exact (split_list_rmw atomic_sites _ decide_atomic). Qed.")
+    lines.append("")
+    lines.append("(* Example for C18_domain_program: the generated class descriptions contain claimed methods accepted by method_rf_b *)")
+    lines.append("Definition DomainExample_stmt : Prop := existsb (fun d => existsb (fun m => claimed_b m && method_rf_b m) (cd_methods d)) all_descs = true.")
+    lines.append("Lemma domain_example : DomainExample_stmt.")
+    lines.append("Proof. vm_compute. reflexivity. Qed.")
     return "\n".join(lines) + "\n"
 
 
